@@ -37,6 +37,7 @@ type c30Case struct {
 	Attach  string     `json:"attach,omitempty"`                          // stdin only: ok | error
 	Wait    string     `json:"wait"`                                      // code0 | code1 | error
 	Stagger bool       `json:"outputs_end_one_after_the_other,omitempty"` // count 2: the second workload's output ends 3 s after the first's
+	InOpen  bool       `json:"input_stays_open,omitempty"`                // stdin: the caller closes the input channel only after the output stream has closed (a client that never half-closes)
 	Fault   *faultSpec `json:"fault,omitempty"`
 }
 
@@ -94,6 +95,9 @@ func c30Cases() []c30Case {
 		for _, att := range []string{"ok", "error"} {
 			for _, wait := range []string{"code0", "code1", "error"} {
 				out = append(out, c30Case{Count: 1, Stdin: true, Logs: logs, Attach: att, Wait: wait})
+				if logs == "two-lines" {
+					out = append(out, c30Case{Count: 1, Stdin: true, Logs: logs, Attach: att, Wait: wait, InOpen: true})
+				}
 			}
 		}
 	}
@@ -114,7 +118,7 @@ func c30Explore(t *testing.T, c *vcore.Ctx) {
 	}
 	b.Restore(snap)
 	pre := b.View(false)
-	c.SetRule("run-and-wait requests: count {1,2} without stdin, count 1 with stdin (input channel gets one line and is closed) x engine scripts: logs {two lines, empty, open fails} x attach {ok, fails} (stdin only) x wait {exit code 0, exit code 1, fails}, for count 2 also with the second output ending 3 s after the first; every request fault-free, and for representative requests (quick: 3, thorough: all) once per intercepted step (etcd request, engine call, WAL write) of the fault-free run with that step failing; one execution per case in a bubble on a snapshot with one ordinary workload; " +
+	c.SetRule("run-and-wait requests: count {1,2} without stdin, count 1 with stdin (input channel gets one line and is closed at once, or only after the output stream has closed) x engine scripts: logs {two lines, empty, open fails} x attach {ok, fails} (stdin only) x wait {exit code 0, exit code 1, fails}, for count 2 also with the second output ending 3 s after the first; every request fault-free, and for representative requests (quick: 3, thorough: all) once per intercepted step (etcd request, engine call, WAL write) of the fault-free run with that step failing; one execution per case in a bubble on a snapshot with one ordinary workload; " +
 		"a failing step that belongs to the cleanup itself (store/engine requests of the removal, WAL commit - outside the statement's engine outcomes) is judged only for stream closure, exit code and other workloads; " +
 		"non-trivial = distinct case in which at least one workload was actually started (so cleanup was owed), faulted cases only when the fault was delivered")
 	c.Assume("etcd is the in-memory model memetcd; engines are the stateful fakev engines; a failing step has no effect, all other steps succeed; the WAL is the real bbolt file, read after the instance is closed")
@@ -231,7 +235,11 @@ func c30Exec(t *testing.T, b *world.Backend, snap *world.Snap, cc *c30Case) *c30
 		if cc.Stdin {
 			in = make(chan []byte, 1)
 			in <- []byte("hello\n")
-			close(in)
+			if cc.InOpen {
+				defer close(in) // only once the output stream has closed (or the call has failed)
+			} else {
+				close(in)
+			}
 		}
 		spec := world.DeploySpec{App: "job", Entry: "run", Pod: "p", Count: cc.Count, Strategy: "AUTO", Memory: 20, Stdin: cc.Stdin}
 		ids, ch, err := inst.Cal.RunAndWait(ctx, spec.Options(), in)
